@@ -74,6 +74,10 @@ pub struct BuildScript {
     /// the author adds the launch SBOMs to the result before the build SBOMs
     #[serde(default)]
     pub launch_sboms_first: bool,
+    /// the author's own code touches `<layers>/store.toml` before returning (0: no, 1: removes it,
+    /// 2: overwrites it with another valid document); the store it returns must still be written
+    #[serde(default)]
+    pub store_tamper: u8,
 }
 
 #[derive(Clone, Debug, PartialEq, Serialize, Deserialize)]
